@@ -300,6 +300,23 @@ class Interp:
             if name in ("as_ref", "as_mut", "as_deref", "as_deref_mut"):
                 yield (args[0], heap, conds)
                 return
+            if name in ("map_or", "is_some_and", "is_none_or") and len(args) >= 2 and isinstance(args[-1], tuple) and args[-1] and args[-1][0] == "closure" and args[-1][1] in self.facts.mir and depth < MAX_DEPTH:
+                # Option::map_or(default, f): None -> default, Some(x) -> f(x)   (is_some_and: default false; is_none_or: default true)
+                o = args[0]
+                clos = args[-1]
+                default = args[1] if name == "map_or" else ("const", 1 if name == "is_none_or" else 0)
+                cur = heap.get(o, o)
+                self.inlined.add(clos[1])
+                if cur[0] == "variant":
+                    if cur[1] == "None":
+                        yield (default, heap, conds)
+                    else:
+                        yield from self.run(clos[1], [clos, cur[2][0]], heap, conds, depth + 1)
+                    return
+                yield (default, heap, conds + [(("discr", o), 0)])
+                payload = ("field", ("downcast", o, "Some"), "0")
+                yield from self.run(clos[1], [clos, payload], heap, conds + [(("discr", o), 1)], depth + 1)
+                return
         if orig in ("std::ops::Deref::deref", "std::ops::DerefMut::deref_mut", "std::clone::Clone::clone", "std::convert::AsRef::as_ref", "std::borrow::Borrow::borrow") and len(args) == 1:
             yield (args[0], heap, conds)
             return
